@@ -26,6 +26,8 @@ import core
 import lib_pow as L
 
 PROP = "C07"
+N_TYPE_MODS = 1      # modules per cpow setting (more modules cost more CPU: every module re-imports the compiler and re-compiles the utility code)
+N_VAL_MODS = 1
 NEG_EXPS = [-1, -2, -3, -5, -8]
 SMALL_BASES = [-3, -2, -1, 0, 1, 2, 3, 5, 10, 63, 64]
 
@@ -367,25 +369,53 @@ def run(tier, seed):
     core.subdir("tlc")
     workdir = core.subdir("build")
 
-    # ---- model checking: the step machine runs while the small parts are used to generate the modules
-    ex = concurrent.futures.ThreadPoolExecutor(max_workers=2)
-    fut_int = ex.submit(core.tlc, "Pow", cfg="Pow_int_q" if tier == "quick" else "Pow_int_t", timeout=2400, workers=None)
-    small = core.tlc_or_die("Pow", cfg="Pow_small", timeout=900, workers=4)
+    # ---- modules: typeof facts for every table state, value functions for the selected ones.  They are rendered from
+    # the operand forms mirrored in lib_pow (so that the builds overlap with TLC); the set of states TLC publishes must
+    # be exactly this set (checked below), i.e. the modules are a function of the published states.
+    ex = concurrent.futures.ThreadPoolExecutor(max_workers=3)
+    mirrored = L.mirrored_table_cases()
+    specs = []
+    type_mod = {}     # (cpow, case id) -> module
+    val_mod = {}
+    for cpow in (False, True):
+        tag = "T" if cpow else "F"
+        cases = sorted((c for c in mirrored if c["cpow"] == cpow), key=L.case_id)
+        for i in range(N_TYPE_MODS):
+            chunk = cases[i::N_TYPE_MODS]
+            name = "c07types_%s%d" % (tag, i)
+            specs.append(core.BuildSpec(name, L.types_source(chunk, cpow)))
+            type_mod.update({(cpow, L.case_id(c)): name for c in chunk})
+        vcases = [c for c in cases if L.wants_value_function(c)]
+        for i in range(N_VAL_MODS):
+            chunk = vcases[i::N_VAL_MODS]
+            name = "c07val_%s%d" % (tag, i)
+            specs.append(core.BuildSpec(name, "# cython: language_level=3, cpow=%s\n\n%s" % (cpow, L.value_source(chunk))))
+            val_mod.update({(cpow, L.case_id(c)): name for c in chunk})
+    fut_build = ex.submit(core.build_many, specs, workdir, len(specs))
+
+    # ---- model checking: the step machine and the one-state-per-case parts run side by side
+    # core.tlc names its metadir by (millisecond, number of entries of the tlc dir): two concurrent calls must not
+    # compute the same name (the first to finish would remove the other's files), so the second call starts a second
+    # later and after the directory has gained an entry.
+    import threading
+    started = threading.Event()
+
+    def run_int():
+        started.set()
+        return core.tlc("Pow", cfg="Pow_int_q" if tier == "quick" else "Pow_int_t", timeout=2400, workers=8 if tier == "quick" else None)
+    fut_int = ex.submit(run_int)
+    started.wait()
+    time.sleep(1.0)
+    os.makedirs(os.path.join(core.subdir("tlc"), "placeholder_c07"), exist_ok=True)
+    small = core.tlc_or_die("Pow", cfg="Pow_small", timeout=900, workers=2)
     cov["tlc"].append(dict(small.summary(), config="small"))
     table = [r for r in small.printed if r["part"] == "table"]
     if len(table) < 1500:
         core.die("Pow.tla published %d table cases" % len(table))
 
-    # ---- build: typeof facts for every table state, value functions for the selected ones
-    specs = []
-    for cpow in (False, True):
-        cases = sorted((c for c in table if c["cpow"] == cpow), key=L.case_id)
-        specs.append(core.BuildSpec("c07types_%s" % ("T" if cpow else "F"), L.types_source(cases, cpow)))
-        vcases = [c for c in cases if L.wants_value_function(c)]
-        specs.append(core.BuildSpec("c07val_%s" % ("T" if cpow else "F"),
-                                    "# cython: language_level=3, cpow=%s\n\n%s" % (cpow, L.value_source(vcases))))
-    fut_build = ex.submit(core.build_many, specs, workdir, 4)
-    timing = {"tlc_small_and_codegen_s": round(time.time() - t0, 1)}
+    if {(c["cpow"], L.case_id(c)) for c in table} != set(type_mod) or len(table) != len(type_mod):
+        core.die("the table states published by Pow.tla are not the operand forms the modules were rendered from")
+    timing = {"tlc_small_done_s": round(time.time() - t0, 1)}
     tl_int = fut_int.result()
     timing["tlc_intpow_done_s"] = round(time.time() - t0, 1)
     if not tl_int.ok:
@@ -432,13 +462,12 @@ def run(tier, seed):
 
     # ---- B3: result types
     typeof = {}
-    for cpow in (False, True):
-        b = builds["c07types_%s" % ("T" if cpow else "F")]
-        o = calls.run_calls(b, [["pow_types", [1]]], timeout=300, tag="types")[0]
+    for name in sorted(set(type_mod.values())):
+        o = calls.run_calls(builds[name], [["pow_types", [1]]], timeout=300, tag="types")[0]
         if not (isinstance(o, list) and o and o[0] == "d"):
             core.die("pow_types returned %r" % (o,))
         for k, v in o[1:]:
-            typeof[(cpow, k)] = v
+            typeof[(name[9] == "T", k)] = v
     n_types = 0
     type_samples = []
     for c in m.table:
@@ -453,8 +482,9 @@ def run(tier, seed):
             type_samples.append({"cpow": c["cpow"], "expr": L.case_id(c), "row": c["row"], "class": c["cls"], "typeof": t})
 
     # ---- B1: values
-    all_calls = {False: [], True: []}
-    meta = {False: [], True: []}
+    mods = sorted(set(val_mod.values()))
+    all_calls = {k: [] for k in mods}
+    meta = {k: [] for k in mods}
     n_funcs = 0
     for c in m.table:
         if not L.wants_value_function(c):
@@ -480,13 +510,13 @@ def run(tier, seed):
                     "want_kind": L.want_kind(want), "decided_by": src}
             if L.case_id(c) == "i_2__v_object" and type(bv) is int:
                 desc["pow2_path"] = m.pow2.get(bv) or ("generic" if bv < 0 else "lshift" if bv > 63 else "?")
-            all_calls[c["cpow"]].append([fn, args])
-            meta[c["cpow"]].append((desc, want, rtype, av, bv))
+            all_calls[val_mod[(c["cpow"], L.case_id(c))]].append([fn, args])
+            meta[val_mod[(c["cpow"], L.case_id(c))]].append((desc, want, rtype, av, bv))
 
-    def run_mod(cpow):
-        return calls.run_calls(builds["c07val_%s" % ("T" if cpow else "F")], all_calls[cpow], timeout=1800, tag="val")
-    with concurrent.futures.ThreadPoolExecutor(max_workers=2) as ex2:
-        obs = dict(zip((False, True), ex2.map(run_mod, (False, True))))
+    def run_mod(name):
+        return calls.run_calls(builds[name], all_calls[name], timeout=1800, tag="val")
+    with concurrent.futures.ThreadPoolExecutor(max_workers=len(mods)) as ex2:
+        obs = dict(zip(mods, ex2.map(run_mod, mods)))
 
     timing["calls_done_s"] = round(time.time() - t0, 1)
     cov["timing"] = timing
@@ -494,8 +524,9 @@ def run(tier, seed):
     nontriv = set()
     passing = []
     per_class = Counter()
-    for cpow in (False, True):
-        for cl, (desc, want, rtype, av, bv), o in zip(all_calls[cpow], meta[cpow], obs[cpow]):
+    for mod in mods:
+        for cl, (desc, want, rtype, av, bv), o in zip(all_calls[mod], meta[mod], obs[mod]):
+            cpow = desc["cpow"]
             n_calls += 1
             n_spec += desc["decided_by"] == "spec"
             per_class[desc["rclass"]] += 1
@@ -529,10 +560,10 @@ def run(tier, seed):
 
     srng = random.Random(seed + 1)
     samples = list(type_samples)
-    for cpow in (False, True):
-        idx = srng.sample(range(len(all_calls[cpow])), min(3, len(all_calls[cpow])))
-        samples += [{"cpow": cpow, "call": all_calls[cpow][i], "want": repr(meta[cpow][i][1]), "got": obs[cpow][i],
-                     "decided_by": meta[cpow][i][0]["decided_by"]} for i in idx]
+    for mod in mods:
+        idx = srng.sample(range(len(all_calls[mod])), min(1, len(all_calls[mod])))
+        samples += [{"cpow": meta[mod][i][0]["cpow"], "call": all_calls[mod][i], "want": repr(meta[mod][i][1]), "got": obs[mod][i],
+                     "decided_by": meta[mod][i][0]["decided_by"]} for i in idx]
     cov.update({
         "states": small.generated + tl_int.generated, "distinct_states": small.distinct + tl_int.distinct,
         "transitions": small.generated + tl_int.generated,
